@@ -201,6 +201,10 @@ func c05Shapes() []c05shape {
 			Values: []any{gen.S{"id": 7.0}, gen.S{"id": 0.0}, gen.S{"role": "adm"}, gen.S{"role": "toolong"}}},
 		{Name: "object-allOf-two-members", Kind: "object", Schema: gen.S{"allOf": gen.Arr(gen.S{"type": "object", "properties": gen.S{"id": gen.S{"type": "integer", "minimum": 1.0}}}, gen.S{"type": "object", "properties": gen.S{"role": gen.S{"type": "string", "maxLength": 3.0}}})},
 			Values: []any{gen.S{"id": 7.0}, gen.S{"id": 0.0}, gen.S{"role": "adm"}, gen.S{"id": 7.0, "role": "adm"}, gen.S{"id": 7.0, "role": "toolong"}}},
+		// properties of its own next to allOf: both describe the object
+		{Name: "object-own-properties-next-to-allOf", Kind: "object", Schema: gen.S{"type": "object", "properties": gen.S{"role": gen.S{"type": "string", "maxLength": 3.0}}, "allOf": gen.Arr(gen.S{"type": "object", "properties": gen.S{"id": gen.S{"type": "integer", "minimum": 1.0}}})},
+			Values: []any{gen.S{"id": 7.0}, gen.S{"role": "adm"}, gen.S{"id": 7.0, "role": "adm"}, gen.S{"id": 0.0, "role": "adm"}, gen.S{"id": 7.0, "role": "toolong"}}},
+		{Name: "integer-own-type-next-to-allOf", Kind: "prim", Schema: gen.S{"type": "integer", "allOf": gen.Arr(gen.S{"minimum": 3.0}, gen.S{"maximum": 8.0})}, Values: []any{2.0, 3.0, 9.0}, Bad: []any{"abc"}},
 		// a composition one member of which says nothing about the type (the usual {allOf: [$ref, {constraints}]})
 		{Name: "allOf-typed-and-untyped-member", Kind: "prim", Schema: gen.S{"allOf": gen.Arr(gen.S{"type": "integer"}, gen.S{"minimum": 3.0})}, Values: []any{2.0, 3.0, 9.0}, Bad: []any{"abc"}},
 		{Name: "allOf-untyped-member-first", Kind: "prim", Schema: gen.S{"allOf": gen.Arr(gen.S{"maximum": 5.0}, gen.S{"type": "integer"})}, Values: []any{2.0, 5.0, 9.0}},
